@@ -60,6 +60,9 @@ class TapeImageContentInjector(TapeImageWorker):
                 elif fileExtension == "CSV":
                     # TODO check the actual format (separator 0xD ? )
                     fileType = 1  # TODO check that file created by basic file commands have type 1 / data
+            if os.path.abspath(src) == os.path.abspath(args.archive):
+                # writing the archive would destroy this source
+                raise ValueError(f"source.is.the.archive:{src}")
             # a leader block holds 8 characters of name and 3 of extension : what is
             # reported is what is stored
             leadBloc = LeaderTapeBlockDescriptor(
